@@ -26,6 +26,7 @@ mod c15;
 mod c08;
 mod c16;
 mod c17;
+mod c19;
 
 use std::io::{BufRead, Write};
 use util::Obs;
@@ -49,6 +50,7 @@ fn table(prop: &str) -> Option<(GenFn, RunFn)> {
         "C08" => Some((c08::generate, c08::run)),
         "C16" => Some((c16::generate, c16::run)),
         "C17" => Some((c17::generate, c17::run)),
+        "C19" => Some((c19::generate, c19::run)),
         "POLY" => Some((polyops::generate, polyops::run)),
         _ => None,
     }
